@@ -44,7 +44,7 @@ TIERS = {
     "thorough": {"shards": 32, "cases": 32, "random_scenarios": 250, "timeout": 3400, "parallel": 32},
 }
 FLOORS = {
-    "quick": {"counts": {"scenarios": 180, "writes_checked": 800, "strict_sync_checks": 600,
+    "quick": {"counts": {"scenarios": 180, "statements_with_inner_blank_runs_or_tabs": 30, "writes_checked": 800, "strict_sync_checks": 600,
                          "readings_checked": 200, "error_replies": 60, "errors_raised_correctly": 40,
                          "yields_injected": 20000}, "keys": 80, "max_inconclusive_frac": 0.2},
     "thorough": {"counts": {"scenarios": 2500, "writes_checked": 15000}, "keys": 300, "max_inconclusive_frac": 0.2},
